@@ -97,6 +97,16 @@ CLAIMED["C11"] = dict(
         "offending sub-elements); *args and typed `addition` are outside the model and covered only where the policies suite "
         "reaches them; fixed-length tuples have no exclude policy in utype.",
    technique="Coq proofs by induction over the element loops of the parse model + correspondence and per-element oracle", design="§8 C11")
+CLAIMED["C12"] = dict(
+   text="Machine-checked proof (Coq), partial: for every builtin target and every source value, what converts under no_data_loss "
+        "converts identically without it (C12_no_data_loss_only_restricts) and what converts under no_explicit_cast converts without it "
+        "to the same value / an equal Decimal (C12_no_explicit_cast_only_restricts); under no_data_loss a float/Decimal becomes an int "
+        "only with its value preserved, only unambiguous booleans become bool, multi-element collections never collapse; under "
+        "no_explicit_cast conversions stay inside the primitive group apart from Decimal<-str (C12_nec_same_group).",
+   note="Trusted: as C01 (Model/Conv.v tied by the convert-grid correspondence suite). Partial: date/time/uuid/enum/complex "
+        "targets, strict bytes decoding, tuple excess and unknown-key rejection under the flags are judged by the flag oracle on the "
+        "implementation, not proved.",
+   technique="Coq proofs by case analysis over the converter models + correspondence grid and flag-lattice oracle", design="§8 C12")
 NOT_YET = {}
 for i in range(1, 21):
     pid = "C%02d" % i
